@@ -1,4 +1,5 @@
 import SaModel.Lemmas.C02Container
+import SaModel.Lemmas.C02DecodeAt
 import SaModel.Read.Cast
 /-
 C02 — deserializing any valid Arrow array yields exactly its logical content.
@@ -14,7 +15,28 @@ in its slot-wise form SaModel/Spec/DecodeAt.lean; rendering of logical values: S
 namespace SaModel.Props.C02
 open SaModel SaModel.Read SaModel.Spec
 
-/-! ### what a successful construction says about the parts -/
+/-! ### the slot-wise oracle IS the oracle
+
+`Spec.decodeAt` / `lenOf` (what every theorem below and the driver use) against `Spec.decodeAll` / `Spec.decode`
+(SaModel/Spec/Decode.lean, the definition of what an array means): equal for EVERY array, with no well-formedness
+hypothesis (both fail in the same slots with the same error).  Proof: `Lemmas/C02DecodeAt.lean`, mutual structural
+recursion over `Arr` / `ArrFields` / `ArrUFields`. -/
+
+theorem decodeAll_eq_decodeAt (a : Arr) : decodeAll a = (List.range (lenOf a)).map (decodeAt a) :=
+  decodeAll_eq_map_decodeAt a
+
+theorem decode_eq_decodeAt (a : Arr) (i : Nat) : Spec.decode a i = decodeAt a i := (decodeAll_spec a).2 i
+
+theorem len_eq_lenOf (a : Arr) : Arr.len a = lenOf a := (decodeAll_spec a).1
+
+/-- non-vacuity: a nested array with nulls, a non-zero first offset, an out-of-range slot and a failing slot
+(the last list entry points outside the child) — both oracles computed -/
+example :
+    let a : Arr := .list false (some ⟨[0b1011], 0⟩) [1, 3, 3, 9, 4] ⟨"element", true, []⟩
+      (.struct 4 none (.cons ⟨"x", true, []⟩ (.prim .int32 (some ⟨[0b0101], 0⟩) [7, 8, 9, 10]) .nil))
+    lenOf a = 4 ∧ (List.range 6).map (Spec.decode a) = (List.range 6).map (decodeAt a) ∧
+      (decodeAt a 0).isOk = true ∧ decodeAt a 2 = .ok .null ∧ (decodeAt a 3).isOk = false := by decide
+
 
 theorem new_struct_inv {len : Nat} {v : Option Bits} {fs : ArrFields} (h : new Fixes.all (.struct len v fs) = .ok ()) :
     newFields Fixes.all fs = .ok () := by unfold new at h; exact h
